@@ -25,13 +25,14 @@
 //! We do not check whether the parameters to chdir, chroot and the priviledge dropping functions
 //! are suitable to create a safe chroot jail.
 
-use crate::analysis::graph::Node;
+use crate::analysis::graph::{Edge, Node};
 use crate::intermediate_representation::*;
 use crate::prelude::*;
 use crate::utils::graph_utils::is_sink_call_reachable_from_source_call;
 use crate::utils::log::{CweWarning, LogMessage};
 use crate::utils::symbol_utils::find_symbol;
 use crate::CweModule;
+use petgraph::visit::EdgeRef;
 
 /// The module name and version
 pub static CWE_MODULE: CweModule = CweModule {
@@ -144,19 +145,28 @@ pub fn check_cwe(
                 if let Some(chdir_tid) =
                     find_symbol(&project.program, "chdir").map(|(tid, _)| tid.clone())
                 {
-                    if graph.neighbors(node).count() > 1 {
-                        panic!("Malformed Control flow graph: More than one edge for extern function call")
+                    // Find the node where the control flow continues after the chroot call.
+                    // There is none if the call does not return.
+                    let mut chroot_return_to_node = None;
+                    for edge in graph.edges(node) {
+                        if let Edge::ExternCallStub(jmp) = edge.weight() {
+                            if jmp.tid == callsite_tid {
+                                chroot_return_to_node = Some(edge.target());
+                            }
+                        }
                     }
-                    let chroot_return_to_node = graph.neighbors(node).next().unwrap();
                     // If chdir is called after chroot, we assume a secure chroot jail.
-                    if is_sink_call_reachable_from_source_call(
-                        graph,
-                        chroot_return_to_node,
-                        &chroot_tid,
-                        &chdir_tid,
-                    )
-                    .is_none()
-                    {
+                    let is_chdir_called_after_chroot = match chroot_return_to_node {
+                        Some(return_to_node) => is_sink_call_reachable_from_source_call(
+                            graph,
+                            return_to_node,
+                            &chroot_tid,
+                            &chdir_tid,
+                        )
+                        .is_some(),
+                        None => false,
+                    };
+                    if !is_chdir_called_after_chroot {
                         // If chdir is not called after chroot, it has to be called before it.
                         // Additionally priviledges must be dropped to secure the chroot jail in this case.
                         if !sub_calls_chdir_and_priviledge_dropping_func(
